@@ -111,8 +111,10 @@ func (s *c12Scenario) build() (*bt.Tx, *bt.FeeQuote) {
 		}
 	}
 	fq := bt.NewFeeQuote()
-	fq.AddQuote(bt.FeeTypeStandard, &bt.Fee{FeeType: bt.FeeTypeStandard, MiningFee: bt.FeeUnit{Satoshis: s.stdSat, Bytes: s.stdBytes}, RelayFee: bt.FeeUnit{Satoshis: s.stdSat, Bytes: s.stdBytes}})
-	fq.AddQuote(bt.FeeTypeData, &bt.Fee{FeeType: bt.FeeTypeData, MiningFee: bt.FeeUnit{Satoshis: s.dataSat, Bytes: s.dataBytes}, RelayFee: bt.FeeUnit{Satoshis: s.dataSat, Bytes: s.dataBytes}})
+	// the relay fee is a different, unrelated rate: funding is priced with the mining fee only
+	relay := bt.FeeUnit{Satoshis: 1 + int(s.seedBytes[0])*7, Bytes: 1 + int(s.seedBytes[1])}
+	fq.AddQuote(bt.FeeTypeStandard, &bt.Fee{FeeType: bt.FeeTypeStandard, MiningFee: bt.FeeUnit{Satoshis: s.stdSat, Bytes: s.stdBytes}, RelayFee: relay})
+	fq.AddQuote(bt.FeeTypeData, &bt.Fee{FeeType: bt.FeeTypeData, MiningFee: bt.FeeUnit{Satoshis: s.dataSat, Bytes: s.dataBytes}, RelayFee: relay})
 	return tx, fq
 }
 
@@ -141,6 +143,12 @@ func genC12(c *kernel.RunCtx) *c12Scenario {
 		s.stdSat, s.stdBytes, s.dataSat, s.dataBytes = 5, 100, 5, 100
 	case 1:
 		s.stdSat, s.stdBytes, s.dataSat, s.dataBytes = c.Range(0, 2000), c.Range(1, 1000), c.Range(0, 2000), c.Range(1, 1000)
+		if c.Bool(1, 6) {
+			s.stdSat = 0 // free standard bytes
+		}
+		if c.Bool(1, 6) {
+			s.dataSat = 0
+		}
 	case 2: // tiny rates: adding an input may not raise the fee at all
 		s.stdSat, s.stdBytes, s.dataSat, s.dataBytes = c.Range(0, 3), c.Range(300, 1000), c.Range(0, 3), c.Range(300, 1000)
 	default: // above 1 sat/byte
@@ -218,7 +226,7 @@ func genC12(c *kernel.RunCtx) *c12Scenario {
 	c.End()
 	c.Begin("second-fund")
 	s.refund = c.Bool(1, 3) && !s.huge
-	s.editKind, s.editIdx = c.Choose(3), c.Choose(1000)
+	s.editKind, s.editIdx = c.Choose(5), c.Choose(1000)
 	s.requote = c.Pick(2, 1, 1)
 	s.stdSat2, s.stdBytes2, s.dataSat2, s.dataBytes2 = c.Range(0, 2000), c.Range(1, 1000), c.Range(0, 2000), c.Range(1, 1000)
 	for i, n := 0, 1+c.Choose(3); i < n; i++ {
@@ -486,6 +494,16 @@ func (w *c12World) one(c *kernel.RunCtx, s *c12Scenario, resps []c12Resp, fname 
 			o.LockingScript = scriptPtr(append(append([]byte(nil), *o.LockingScript...), make([]byte, 40+s.editIdx%200)...))
 		case s.editKind == 1 && len(t.Outputs) > 0:
 			t.Outputs[s.editIdx%len(t.Outputs)].Satoshis += uint64(1000 + s.editIdx)
+		case s.editKind == 2 && len(t.Inputs) > 0:
+			// an input's recorded value is corrected in place (same number of inputs)
+			t.Inputs[s.editIdx%len(t.Inputs)].PreviousTxSatoshis /= 2
+		case s.editKind == 3 && len(t.Inputs) > 0:
+			// the caller starts over with other coins: the input list is reset and re-filled with as many inputs
+			n := len(t.Inputs)
+			t.Inputs = nil
+			for i := 0; i < n; i++ {
+				_ = t.FromUTXOs(&bt.UTXO{TxID: s.txid(500 + i), Vout: uint32(i), Satoshis: uint64(7 + i), LockingScript: scriptPtr(p2pkh(s.h20(500 + i)))})
+			}
 		default:
 			t.AddOutput(&bt.Output{Satoshis: uint64(500 + s.editIdx), LockingScript: scriptPtr(p2pkh(s.h20(77)))})
 		}
